@@ -665,6 +665,55 @@ theorem probe_gap_bound (v vb : Variant) (c : Cfg) (hM : c.maxMult = 12) (hcap :
   apply key outcomes _ _ (cinv_init c t0)
   constructor <;> simp [St.init, HealthCB.init] <;> omega
 
+/-! # The scheduler honours the recorded schedule -/
+
+private structure DInv (g : DueGhost) (s : St) : Prop where
+  now : g.now = s.cb.now
+  due : g.due = s.ep.nextCheck
+
+private theorem dinv_step (v vb : Variant) (c : Cfg) (g : DueGhost) (s : St) (op : Op) (h : DInv g s) :
+    dueOk g op (obsOf (step v vb c s op)) = true ∧ DInv (g.step op (obsOf (step v vb c s op))) (step v vb c s op).1 := by
+  obtain ⟨h1, h2⟩ := h
+  obtain ⟨⟨st, f, m, lc, nc⟩, ⟨cf, clf, cla, cio, now⟩, cbs, lr⟩ := s
+  simp only at h1 h2
+  cases op with
+  | tick d => exact ⟨rfl, by constructor <;> simp_all [DueGhost.step, obsOf, step]⟩
+  | proxyFail =>
+    refine ⟨rfl, ?_⟩
+    constructor <;> simp_all [DueGhost.step, obsOf, step, doProxyFail, St.delay]
+    omega
+  | check o =>
+    refine ⟨rfl, ?_⟩
+    cases cio <;> by_cases hto : clf + c.breaker.timeout < now <;> constructor <;>
+      simp_all [DueGhost.step, obsOf, step, doCheck, HealthCB.isOpenCall, HealthCB.recordFailure, HealthCB.recordSuccess, St.delay, -Int.not_lt, -Int.not_le]
+    all_goals (try omega)
+    all_goals (try ((repeat' split) <;> first | rfl | omega))
+  | sched o =>
+    by_cases hdue : now < nc
+    · refine ⟨by simp_all [dueOk], ?_⟩
+      constructor <;> simp_all [DueGhost.step, obsOf, step]
+    · refine ⟨by simp [dueOk, obsOf, step, hdue, doCheck], ?_⟩
+      simp only [step, if_neg hdue]
+      cases cio <;> by_cases hto : clf + c.breaker.timeout < now <;> constructor <;>
+        simp_all [DueGhost.step, obsOf, step, doCheck, HealthCB.isOpenCall, HealthCB.recordFailure, HealthCB.recordSuccess, St.delay, -Int.not_lt, -Int.not_le]
+      all_goals (try omega)
+      all_goals (try ((repeat' split) <;> first | rfl | omega))
+
+/-- **The scheduler honours the schedule it records**: in every history, a firing of the scheduler at or after the
+    time the record promised (`LastChecked` + the reported delay; immediately after loading) runs the check. -/
+theorem due_probed (v vb : Variant) (c : Cfg) (t0 : Int) (ops : List Op) :
+    dueProbed t0 (trace v vb c (St.init t0) ops) = true := by
+  have key : ∀ (ops : List Op) (g : DueGhost) (s : St), DInv g s → dueProbedFrom g (trace v vb c s ops) = true := by
+    intro ops
+    induction ops with
+    | nil => intro _ _ _; rfl
+    | cons op rest ih =>
+      intro g s h
+      obtain ⟨h1, h2⟩ := dinv_step v vb c g s op h
+      simp only [trace, dueProbedFrom, Bool.and_eq_true]
+      exact ⟨h1, ih _ _ h2⟩
+  exact key ops ⟨t0, t0⟩ (St.init t0) ⟨rfl, rfl⟩
+
 /-! # Instances at the configuration regenerated from the compiled code -/
 
 /-- Every clause the pinned tree satisfies, for EVERY `check_interval`, at the regenerated constants. -/
